@@ -416,6 +416,7 @@ func init() {
 }
 
 func runC17(c *Cfg) {
+	runSpecial(c, "C17", "replaced-exec-style")
 	r := c.Rep
 	nz := len(zoo.Fixed())
 	var cases []*FnCase
